@@ -13,8 +13,11 @@
 #ifndef RB_COMMON_H
 #define RB_COMMON_H
 #include "renderbuffer.c"
-#include "tickit-mockterm.h"
+#include "mockterm.c"     /* also #included (and excluded from the separately compiled sources): the harness
+                           * replaces the mock driver's erasech to offer BOTH legal behaviours of
+                           * erasech(..., TICKIT_MAYBE) */
 #include "common.h"
+#include <unistd.h>
 
 static int rbh_slack = 0;
 
@@ -203,12 +206,43 @@ static void rbh_putpen_canon(const TickitPen *pen)
          tickit_pen_get_bool_attr(pen, TICKIT_PEN_BOLD) ? 1 : 0, tickit_pen_get_int_attr(pen, TICKIT_PEN_UNDER));
 }
 
-/* fl tl tc gl gc P: flush onto a tl x tc mock terminal that shows a sentinel pattern, has its
- * cursor at (gl, gc) and pen P; prints F{operation log}{final grid} */
-static void rbh_flush_mock(TickitRenderBuffer *rb, int tl, int tc, int gl, int gc, const char *penspec)
+/* the mock driver with an erasech whose MAYBE leaves the cursor in place (as xterm's ECH does) */
+static bool rbh_erasech_stay(TickitTermDriver *ttd, int count, TickitMaybeBool moveend)
+{
+  MockTermDriver *mtd = (MockTermDriver *)ttd;
+  int col = mtd->col;
+  bool ret = mtd_erasech(ttd, count, moveend);
+  if(moveend == TICKIT_MAYBE)
+    mtd->col = col;
+  return ret;
+}
+/* the mock driver's print never returns when handed bytes that are not valid UTF-8 text (its
+ * grapheme loop makes no progress); refuse such a print and make it visible instead */
+static int rbh_badprint;
+static bool rbh_print_checked(TickitTermDriver *ttd, const char *str, size_t len)
+{
+  TickitStringPos pos;
+  if(len == 0 || tickit_utf8_ncount(str, len, &pos, NULL) == (size_t)-1 || pos.bytes != len) {
+    rbh_badprint++;
+    return true;
+  }
+  return mtd_print(ttd, str, len);
+}
+static TickitTermDriverVTable rbh_stay_vtable;
+
+/* fl / flm tl tc gl gc P: flush onto a tl x tc mock terminal that shows a sentinel pattern, has
+ * its cursor at (gl, gc) and pen P; prints F{operation log}{final grid}.  maybe_moves = 0: the
+ * terminal's erasech(MAYBE) does not move the cursor */
+static void rbh_flush_mock(TickitRenderBuffer *rb, int tl, int tc, int gl, int gc, const char *penspec, int maybe_moves)
 {
   TickitMockTerm *mt = tickit_mockterm_new(tl, tc);
   TickitTerm *tt = (TickitTerm *)mt;
+  rbh_stay_vtable = mtd_vtable;
+  rbh_stay_vtable.print = rbh_print_checked;
+  if(!maybe_moves)
+    rbh_stay_vtable.erasech = rbh_erasech_stay;
+  tickit_term_get_driver(tt)->vtable = &rbh_stay_vtable;
+  rbh_badprint = 0;
   for(int l = 0; l < tl; l++) {
     tickit_term_goto(tt, l, 0);
     for(int c = 0; c < tc; c++) {
@@ -230,6 +264,7 @@ static void rbh_flush_mock(TickitRenderBuffer *rb, int tl, int tc, int gl, int g
   tickit_renderbuffer_flush_to_term(rb, tt);
 
   printf("F{");
+  if(rbh_badprint) printf("BADPRINT%d,", rbh_badprint);
   int n = tickit_mockterm_loglen(mt);
   for(int i = 0; i < n; i++) {
     TickitMockTermLogEntry *e = tickit_mockterm_peeklog(mt, i);
@@ -379,7 +414,8 @@ static void rbh_run_case(void)
       p += 8;
     }
     else if(!strcmp(kw, "blit")) tickit_renderbuffer_blit(rb, bufs[1 - cur].rb);
-    else if(!strcmp(kw, "fl")) { rbh_tok(); rbh_flush_mock(rb, ARG(0), ARG(1), ARG(2), ARG(3), vh_tok[p + 4]); p += 5; }
+    else if(!strcmp(kw, "fl")) { rbh_tok(); rbh_flush_mock(rb, ARG(0), ARG(1), ARG(2), ARG(3), vh_tok[p + 4], 1); p += 5; }
+    else if(!strcmp(kw, "flm")) { rbh_tok(); rbh_flush_mock(rb, ARG(0), ARG(1), ARG(2), ARG(3), vh_tok[p + 4], 0); p += 5; }
     else if(!strcmp(kw, "flx")) { rbh_tok(); rbh_flush_xterm(rb, ARG(0), ARG(1)); p += 2; }
     else if(!strcmp(kw, "lct")) {
       rbh_tok(); printf("L{");
@@ -402,7 +438,11 @@ static int rbh_main(void)
 {
   while(vh_next()) {
     if(vh_ntok < 2) { printf("ERR case\n"); continue; }
+    /* watchdog: a case that loops (e.g. the mock terminal never finishes printing a NUL byte)
+     * is killed by SIGALRM and reported as the crash of that case */
+    alarm(3);
     rbh_run_case();
+    alarm(0);
   }
   return 0;
 }
